@@ -142,8 +142,13 @@ def decode_chunk_into(chunk, buf, block_size):
         if offset + 8 * gx * gy * gz > len(buf):
             raise InvalidFormatError("compressed_segmentation channel offset "
                                      "is too large (truncated file?)")
+        channel_buf = buf[offset:next_offset]
+        if len(channel_buf) < 8 * gx * gy * gz:
+            raise InvalidFormatError("compressed_segmentation channel data is "
+                                     "too short (inconsistent channel "
+                                     "offsets?)")
         _decode_channel_into(
-            chunk, channel, buf[offset:next_offset], block_size
+            chunk, channel, channel_buf, block_size
         )
 
     return chunk
